@@ -141,7 +141,7 @@ theorem loopBody_eq_hash16 (h : St) (k1 k2 : UInt64) : Java.loopBody h k1 k2 = h
 theorem blocks_snoc (h : St) (bs : List UInt8) (n : Nat) :
     blocks h bs (n + 1) = hash16 (blocks h bs n) (fetch16 (bs.drop (16 * n))) := by
   induction n generalizing h bs with
-  | zero => simp [blocks_succ, blocks]
+  | zero => simp [blocks]
   | succ n ih =>
     rw [blocks_succ, ih, blocks_succ, List.drop_drop]
     congr 3
@@ -163,6 +163,17 @@ theorem loop_eq_blocks (key : List UInt8) (n : Nat) (h0 : St) :
 
 /-! ### the tail switch -/
 
+theorem c1_eq : Java.c1 = c1 := rfl
+theorem c2_eq : Java.c2 = c2 := rfl
+theorem rotl_eq (v n : UInt64) : Java.rotl64 v n = rotl64 v n := rfl
+
+theorem mixK1_eq (k : UInt64) : Java.rotl64 (k * Java.c1) 31 * Java.c2 = mixK1 k := by
+  unfold mixK1; rw [c1_eq, c2_eq, rotl_eq]
+
+theorem mixK2_eq (k : UInt64) : Java.rotl64 (k * Java.c2) 33 * Java.c1 = mixK2 k := by
+  unfold mixK2; rw [c1_eq, c2_eq, rotl_eq]
+
+/-- The 15-case fall-through `switch` computes the two sign-extended tail words (`sw` = `length & 15`). -/
 theorem tailSwitch_eq (key : List UInt8) (offset sw : Nat) (h : St) (hsw : sw < 16) :
     Java.tailSwitch key offset sw h.1 h.2 =
       (if sw > 0 then h.1 ^^^ mixK1 (tailXor (key.drop offset) 0 (min 8 sw)) else h.1,
@@ -172,12 +183,13 @@ theorem tailSwitch_eq (key : List UInt8) (offset sw : Nat) (h : St) (hsw : sw < 
     rw [toLong_eq_sext]
     unfold Java.get
     simp [List.getD, List.getElem?_drop]
-  have hget0 : Java.toLong (Java.get key offset) = sext ((key.drop offset).getD 0 0) := hget 0
+  have hget0 : Java.toLong (Java.get key offset) = sext ((key.drop offset).getD 0 0) <<< 0 := by
+    rw [UInt64.shiftLeft_zero]; exact hget 0
   have hcases : sw = 0 ∨ sw = 1 ∨ sw = 2 ∨ sw = 3 ∨ sw = 4 ∨ sw = 5 ∨ sw = 6 ∨ sw = 7 ∨ sw = 8 ∨ sw = 9 ∨
       sw = 10 ∨ sw = 11 ∨ sw = 12 ∨ sw = 13 ∨ sw = 14 ∨ sw = 15 := by omega
-  unfold Java.tailSwitch mixK1 mixK2
-  simp only [hget, hget0]
-  rcases hcases with h | h | h | h | h | h | h | h | h | h | h | h | h | h | h | h <;> subst h <;> rfl
+  unfold Java.tailSwitch
+  rcases hcases with h | h | h | h | h | h | h | h | h | h | h | h | h | h | h | h <;> subst h <;>
+    simp -zeta only [Nat.reduceLeDiff, ↓reduceIte, hget, hget0, mixK1_eq, mixK2_eq] <;> rfl
 
 /-! ### the whole function -/
 
